@@ -1,5 +1,5 @@
 ---------------------------- MODULE HostileTrace ----------------------------
-(* Leg V for C04.  Events: {"ev":"dec","entry":..,"case":..,"len":N,"outcome":..,"ms":N,"alloc":N,"follow":[{f,o}]} *)
+(* Leg V for C04.  Events: {"ev":"dec","entry":..,"case":..,"len":N,"outcome":..,"ms":N,"allockb":N,"follow":[{f,o}]} *)
 EXTENDS Hostile, Json, IOUtils
 VARIABLES l, bad, done
 Tr == ndJsonDeserialize("c04_trace.ndjson")
@@ -9,7 +9,7 @@ Why(ev) ==
   \o (IF \A i \in 1..Len(ev.follow) : ev.follow[i].o \in FollowOutcomes THEN <<>>
       ELSE LET i == CHOOSE i \in 1..Len(ev.follow) : ev.follow[i].o \notin FollowOutcomes IN <<ev.follow[i].f \o "-" \o ev.follow[i].o>>)
   \o (IF ev.ms <= MsBound(ev.len) THEN <<>> ELSE <<"slow">>)
-  \o (IF ev.alloc <= AllocBound(ev.len) THEN <<>> ELSE <<"allocation">>)
+  \o (IF ev.allockb <= AllocBoundKB(ev.len) THEN <<>> ELSE <<"allocation">>)
 INSTANCE EventJudge
 TraceSpec == JInit /\ cell = [g |-> "none"] /\ outcome = "none" /\ follow = [f |-> "none", o |-> "none"]
              /\ [][(JStep \/ JFinish) /\ UNCHANGED vars]_<<jvars, vars>>
